@@ -109,6 +109,7 @@ func updateRefsOutNamesFromBinding(edits editSet, binding *syntax.BindStm,
 		Pipeline: pipe,
 		Call:     call,
 		Binding:  binding,
+		Id:       binding.Id,
 		Mods:     isMods,
 		Exp:      exp,
 	})
